@@ -860,7 +860,11 @@ func genSameBlock(rng *rand.Rand, o genOpts) *scn {
 		}
 		s.Steps = append(s.Steps, scnStep{Kind: "announce", Node: i, How: "inv", N: 1}, scnStep{Kind: "run"})
 	}
-	s.Steps = append(s.Steps, scnStep{Kind: "announce", Node: sp, How: "inv", N: 1}, scnStep{Kind: "run"})
+	spHow := "inv"
+	if rng.Intn(3) == 0 {
+		spHow = "invt" // transaction entries before and after the block entry
+	}
+	s.Steps = append(s.Steps, scnStep{Kind: "announce", Node: sp, How: spHow, N: 1}, scnStep{Kind: "run"})
 	for _, i := range others[first:] {
 		if rng.Intn(2) == 0 {
 			s.Steps = append(s.Steps, scnStep{Kind: "announce", Node: i, How: "inv", N: 1}, scnStep{Kind: "run"})
@@ -903,7 +907,11 @@ func genMidSyncInv(rng *rand.Rand) *scn {
 	for k := serves; k > 0; k-- {
 		s.Steps = append(s.Steps, scnStep{Kind: "serve", Node: 0})
 	}
-	s.Steps = append(s.Steps, scnStep{Kind: "announce", Node: 0, How: "inv", N: 1}, scnStep{Kind: "run"})
+	how := "inv"
+	if rng.Intn(3) == 0 {
+		how = "invt"
+	}
+	s.Steps = append(s.Steps, scnStep{Kind: "announce", Node: 0, How: how, N: 1}, scnStep{Kind: "run"})
 	timePasses(s)
 	return s
 }
@@ -1071,7 +1079,7 @@ func reportScn(c *Ctx, res *scnResult, rigErrs *int) {
 }
 
 func runC06(c *Ctx) error {
-	c.R.Rule = "scenario = block tree (linear or forked, 5..60 headers quick / up to thousands thorough) x 1..3 scripted conformant nodes (full, lagging, other branch; cap 1/2/7/2000; inbound or outbound; close/stall at a message index) x engine {legacy, experimental} x checkpoints {disabled, one, several, last at tip, none(exp)} x initial store {genesis, prefix, prefix+stale fork, lighter branch} x an inv announcement by the sync peer at a random point of the initial sync (caps 1..10, with and without checkpoints ahead: finding C06-F5) x the SAME new block announced by inv by 2..4 nodes in steady state, first by non-sync nodes that stall or are ignored (service not current), then by the sync peer x announcements {inv, one inv carrying announced + new blocks and tx entries, headers; one or several nodes} x a handful of syncs of 300..1200 headers (several replies) while background goroutines read the store (tip, locator, GET /api/v1/chain/tip/longest) x scheduling {serial with per-event trace comparison against the Lean model, free-running goroutines with seeded delays}; non-trivial = more than one request round or more than one peer or an announcement / peer loss; accepted (counted, not failed) per the property's proviso: the best peer's last, cap-limited answer brought only known headers, nothing was requested from it afterwards and it has not announced since"
+	c.R.Rule = "scenario = block tree (linear or forked, 5..60 headers quick / up to thousands thorough) x 1..3 scripted conformant nodes (full, lagging, other branch; cap 1/2/7/2000; inbound or outbound; close/stall at a message index) x engine {legacy, experimental} x checkpoints {disabled, one, several, last at tip, none(exp)} x initial store {genesis, prefix, prefix+stale fork, lighter branch} x an inv announcement by the sync peer at a random point of the initial sync (caps 1..10, with and without checkpoints ahead: finding C06-F5) x the SAME new block announced by inv by 2..4 nodes in steady state, first by non-sync nodes that stall or are ignored (service not current), then by the sync peer x announcements {inv, one inv that starts with tx entries (tx, tx, block, tx), one inv carrying announced + new blocks and tx entries, headers; one or several nodes} x a handful of syncs of 300..1200 headers (several replies) while background goroutines read the store (tip, locator, GET /api/v1/chain/tip/longest) x scheduling {serial with per-event trace comparison against the Lean model, free-running goroutines with seeded delays}; non-trivial = more than one request round or more than one peer or an announcement / peer loss; accepted (counted, not failed) per the property's proviso: the best peer's last, cap-limited answer brought only known headers, nothing was requested from it afterwards and it has not announced since"
 	l := newSyncModel(c)
 	defer l.Close()
 	if c.Replay != "" {
@@ -1269,6 +1277,10 @@ var c06Corpus = []struct {
 	{"F4d-0b0b1e1", []string{"c06 engine=legacy cpoff=0 cps=2 init= forbid= sched=serial seed=1 salt=4", "tree parents=0~6",
 		"node path=0..6 pos=5 cap=2000 dir=out honest=1", "step connect 0", "step announce 0 inv 1", "step run", "step tick 200",
 		"step run", "step announce 0 inv 1", "step run"}},
+	// a block announced in an inv whose FIRST entries are transactions (tx, tx, block, tx): the last block entry counts
+	{"inv-tx-before-block", []string{"c06 engine=legacy cpoff=0 cps=2 init= forbid= sched=serial seed=1 salt=47", "tree parents=0~6",
+		"node path=0..6 pos=5 cap=2000 dir=out honest=1", "step connect 0", "step run", "step announce 0 invt 1", "step run",
+		"step announce 0 invt 1", "step run"}},
 	// the same new block (#5) announced by inv by two nodes. Node 1 is not the sync peer and stalls: its inv is honoured
 	// (the service is current) with a getheaders it never answers; then the sync peer node 0 announces the same block
 	{"same-block-stalling-peer-first", []string{"c06 engine=legacy cpoff=0 cps=2 init= forbid= sched=serial seed=1 salt=31", "tree parents=0~5",
